@@ -717,7 +717,7 @@ def run_alias(case, st):
                 except Exception as e:  # noqa
                     viol = ("alias:get of the file's own uri raises", "get_template('u') succeeds", "template", "%s: %s" % (type(e).__name__, e))
                     break
-            elif ev == "has_p":
+            if ev == "has_p":
                 st.evaluations += 1
                 try:
                     r = w.lookup.has_template("p")
@@ -726,7 +726,9 @@ def run_alias(case, st):
                 if r is not True:
                     viol = ("alias:has_template", "a put_template entry is served under its URI (has_template True)", True, r)
                     break
-            else:
+                # has_template is a fetch: it may have re-loaded the entry; the fetch below (same instant) shows which
+                # template the lookup holds now and is judged like any other
+            if ev in ("get_p", "has_p"):
                 st.evaluations += 1
                 try:
                     t = w.lookup.get_template("p")
